@@ -1,5 +1,6 @@
 import BoltonsVerif.Common
 import BoltonsVerif.C12.Model
+import BoltonsVerif.C12.Model3
 import BoltonsVerif.Generated.C12_Consts
 /-
 C12 line protocol.  One line = one whole case.
@@ -32,6 +33,11 @@ C12 line protocol.  One line = one whole case.
        and read back with nreads read_ns calls.
      output: W:<per-write results `,`-joined>;<wire hex>;<per-read results `,`-joined>
   nsr <rcfg> <script> <nreads>          read_ns over an arbitrary script
+  dx <recvsize> <maxsize> <rscript> <sscript> <op> ...     ONE BufferedSocket, receive and send calls interleaved
+       op : R<rx op as above> | RF<size>:<flags> recv(size, flags) | S<tx op as above> | SF<hex|->:<flags> send(data, flags)
+     output per op: <res>/<rbuf hex>/<getsendbuffer hex>/<wire hex>, `;`-joined, then ` #<send faults left>`
+       res : ok:<hex|-> | closed | toolong | none | sent:<n> | timeout | oserror | valueerror
+     computed by `drun` (Model3.lean): fault classes come from `BSock.rtags` / `stags`
   duo <line> | <line>                   two independent sockets (the harness interleaves their calls):
                                         output `<out> | <out>`
      output: per read `,`-joined <res>/<rbuf hex>
@@ -281,6 +287,61 @@ def handleNsr (toks : List String) : String :=
     | _, _, _ => "bad-op"
   | _ => "bad-op"
 
+/-! ### dx: the one-object model (`BSock`, `drun`) -/
+
+def tagsOf (s : String) : List Fault :=
+  (faultTags s).map fun b => if b then Fault.osError else Fault.timeout
+
+def parseDOp? (tok : String) : Option DOp :=
+  let rest := (tok.drop 1).toString
+  match tok.front with
+  | 'R' =>
+    if rest.front = 'F' then
+      match splitOnChar (rest.drop 1).toString ':' with
+      | [n, f] => match n.toNat?, f.toNat? with
+        | some n, some f => some (.recvFlags n f)
+        | _, _ => none
+      | _ => none
+    else (parseCall? rest).map DOp.call
+  | 'S' =>
+    if rest.front = 'F' then
+      match splitOnChar (rest.drop 1).toString ':' with
+      | [d, f] => match hexToNats? d, f.toNat? with
+        | some d, some f => some (.sendFlags d f)
+        | _, _ => none
+      | _ => none
+    else (parseSOp? rest).map DOp.sop
+  | _ => none
+
+def showDOut : DOut → String
+  | .rx (some r) => showRes r
+  | .rx none => "none"
+  | .tx r => showSRes r
+  | .fault .timeout => "timeout"
+  | .fault .osError => "oserror"
+  | .valueError => "valueerror"
+
+def handleDx (toks : List String) : String :=
+  match toks with
+  | rs :: ms :: rscript :: sscript :: ops =>
+    match rs.toNat?, ms.toNat?, parseScript? rscript, parseSScript? sscript,
+          ops.foldr (fun t acc => match acc, parseDOp? t with
+            | some l, some o => some (o :: l) | _, _ => none) (some []) with
+    | some rs, some ms, some revs, some sevs, some dops =>
+      let b0 : BSock := ⟨⟨rs, ms⟩, ⟨[], revs⟩, ⟨[], [], sevs⟩, tagsOf rscript, tagsOf sscript⟩
+      -- one record per call: replay the prefix states through `dstep` (the same function `drun` folds)
+      let rec go (b : BSock) (ops : List DOp) (acc : List String) : List String × BSock :=
+        match ops with
+        | [] => (acc.reverse, b)
+        | o :: os =>
+          let (out, b') := dstep Gen.RECV_LARGE_MAXSIZE o b
+          go b' os (s!"{showDOut out}/{natsToHex b'.rx.rbuf}/{natsToHex b'.tx.getsendbuffer}/{natsToHex b'.tx.wire}" :: acc)
+      let (outs, _) := go b0 dops []
+      let bf := (drun Gen.RECV_LARGE_MAXSIZE dops b0).2
+      s!"{if outs.isEmpty then "-" else ";".intercalate outs} #{nSF bf.tx.script}"
+    | _, _, _, _, _ => "bad-op"
+  | _ => "bad-op"
+
 def handle1 (toks : List String) : String :=
   match toks with
   | "rx" :: toks => handleRx toks
@@ -301,6 +362,7 @@ def handle (line : String) : String :=
   | "tx" :: toks => handleTx toks
   | "ns" :: toks => handleNs toks
   | "nsr" :: toks => handleNsr toks
+  | "dx" :: toks => handleDx toks
   | ["int", h] =>
     -- Python's int() on a bytes object, as modelled: `err` = ValueError
     match hexToNats? h with
